@@ -46,3 +46,55 @@ def generate(spec, root):
         if n == 0 and not d.get("subst_optional"):
             raise SliceError("substitution %r did not apply (source changed)" % pat)
     return d["prefix"] + "\n" + body + "\n" + d["suffix"]
+
+
+# --------------------------------------------------------------------------
+# C26: bounded copy + NUL termination at the end of searchlite_search
+# --------------------------------------------------------------------------
+register(
+    "ffi_search_tail",
+    file="searchlite-ffi/src/lib.rs",
+    start=r"^\s*if out_json_buf\.is_null\(\) \|\| buf_cap == 0 \{",
+    end=r"^\}",
+    subst=[(r"let encoded = serde_json::to_string\(&res\)[^;]*;", "")],
+    prefix=("/// SLICE (regenerated from the current source on every run): the statements of\n"
+            "/// `searchlite_search` after the search itself, with the serialized response as a parameter.\n"
+            "#[allow(unused_unsafe)]\n"
+            "unsafe fn slice_search_tail(encoded: String, out_json_buf: *mut c_char, buf_cap: usize) -> usize {"),
+    suffix="}",
+)
+
+
+# --------------------------------------------------------------------------
+# C21: fragment window of highlight_fragments (between the regex match and the
+# re-highlighting of the fragment)
+# --------------------------------------------------------------------------
+register(
+    "highlight_window",
+    file="searchlite-core/src/index/highlight.rs",
+    start=r"^\s*let (mut )?start = m\.start\(\)",
+    end=r"^\s*let fragment = ",
+    include_end=True,
+    subst=[(r"\bm\.start\(\)", "m_start"), (r"\bm\.end\(\)", "m_end")],
+    subst_optional=True,
+    prefix=("/// SLICE (regenerated from the current source on every run): the fragment-window\n"
+            "/// statements of `highlight_fragments`, with the regex match offsets as parameters.\n"
+            "#[allow(unused_variables, unused_mut)]\n"
+            "fn slice_fragment_window(text: &str, m_start: usize, m_end: usize, opts: &HighlightOptions<'_>) -> (usize, usize, String) {"),
+    suffix="  (start, end, fragment)\n}",
+)
+
+
+register(
+    "ffi_search_guard",
+    file="searchlite-ffi/src/lib.rs",
+    start=r"^\) -> usize \{",
+    end=r"^\s*let h = &mut \*handle;",
+    include_start=False,
+    subst=[],
+    prefix=("/// SLICE (regenerated from the current source on every run): the statements of\n"
+            "/// `searchlite_search` that run before the handle is dereferenced.\n"
+            "#[allow(unused_unsafe, unreachable_code)]\n"
+            "unsafe fn slice_search_guard(handle: *mut IndexHandle, query: *const c_char) -> usize {"),
+    suffix="  usize::MAX\n}",
+)
